@@ -43,16 +43,65 @@ def _carrier_matcher(texts, bare=("self", "other")):
     return m
 
 
+def _unroll_literal_loops(stmts):
+    """``for a, b in [(X, Y), (Y, X)]: body`` over a display of names: the body once per item, names written out"""
+    import copy as _copy
+    from ..core import set_parents
+    out = []
+    for st in stmts:
+        if isinstance(st, ast.For) and not st.orelse and isinstance(st.iter, (ast.List, ast.Tuple)) and st.iter.elts \
+                and all(isinstance(e, (ast.Tuple, ast.List, ast.Name)) for e in st.iter.elts):
+            tg = st.target.elts if isinstance(st.target, (ast.Tuple, ast.List)) else [st.target]
+            ok = all(isinstance(t, ast.Name) for t in tg)
+            items = []
+            for e in st.iter.elts:
+                vals = e.elts if isinstance(e, (ast.Tuple, ast.List)) else [e]
+                if len(vals) != len(tg) or not all(isinstance(v, (ast.Name, ast.Attribute)) for v in vals):
+                    ok = False
+                items.append(vals)
+            if ok:
+                for vals in items:
+                    ren = dict((t.id, v) for t, v in zip(tg, vals))
+
+                    class _R(ast.NodeTransformer):
+                        def visit_Name(self, n):
+                            if n.id in ren and isinstance(n.ctx, ast.Load):
+                                return ast.copy_location(_copy.deepcopy(ren[n.id]), n)
+                            return n
+                    for b in st.body:
+                        nb = _R().visit(_copy.deepcopy(b))
+                        ast.fix_missing_locations(nb)
+                        set_parents(nb)
+                        out.append(nb)
+                continue
+        if isinstance(st, ast.If):
+            st = _copy.copy(st)
+            st.body = _unroll_literal_loops(st.body)
+            st.orelse = _unroll_literal_loops(st.orelse)
+        out.append(st)
+    return out
+
+
 def check_carriers(chk, rule, where_, fn, texts, bare=("self", "other")):
     """R4.3 on every path of fn."""
     n = 0
-    for path in e4.simple_paths(docstring_free(fn.body)):
+    for path in e4.simple_paths(_unroll_literal_loops(docstring_free(fn.body))):
         stmts = [s for s in path if not isinstance(s, tuple) and isinstance(s, (ast.Return, ast.Assign, ast.Expr,
                                                                                  ast.AugAssign))]
+        # a local bound to a carrier (or to a copy of one) carries the same Stream coefficients: it is judged like one
+        texts_p, derived = tuple(texts), []
+        for st in stmts:
+            if isinstance(st, ast.Assign) and len(st.targets) == 1 and isinstance(st.targets[0], ast.Name) \
+                    and st.targets[0].id not in bare:
+                v = st.value
+                if isinstance(v, ast.Call) and isinstance(v.func, ast.Attribute) and v.func.attr == "copy" and not v.args:
+                    v = v.func.value
+                if isinstance(v, ast.Attribute) and unparse(v) in texts_p:
+                    derived.append(st.targets[0].id)
         uses = []
         for st in stmts:
             if st.value is not None:
-                uses.extend(e4.find_uses(st.value, _carrier_matcher(texts, bare)))
+                uses.extend(e4.find_uses(st.value, _carrier_matcher(texts_p, tuple(bare) + tuple(derived))))
         by = {}
         for u in uses:
             by.setdefault(unparse(u.node), []).append(u)
